@@ -26,17 +26,32 @@ Alts(t, b) == { [table |-> t, bad |-> b], [table |-> <<>>, bad |-> TRUE] }
 PickRest ==
   /\ phase = "rest" /\ phase' = "done"
   /\ \E dir \in {"consume", "produce"}, bad \in BOOLEAN, skip \in 0..(MaxRecs + 1), reuse \in BOOLEAN, pre \in 0..(MaxRecs + 1) :
-     \E kind \in (IF dir = "consume" THEN DstKinds ELSE SrcKinds), alt \in Alts(cfg, bad) :
+     \E kind \in (IF dir = "consume" THEN DstKinds ELSE SrcKinds), alt \in Alts(cfg, bad), tail \in BOOLEAN :
+       /\ tail => (bad /\ dir = "produce")
        /\ (kind # "precords" \/ dir # "consume") => pre = 0
        /\ (dir = "produce" /\ kind \in {"records", "precords"}) => ~bad      \* a record table cannot be malformed
        /\ (dir = "consume" \/ kind # "binm") => alt = [table |-> cfg, bad |-> bad]
-       /\ cfg' = [dir |-> dir, kind |-> kind, table |-> cfg, bad |-> bad, alt |-> alt, skip |-> skip, reuse |-> reuse, pre |-> pre]
+       /\ cfg' = [dir |-> dir, kind |-> kind, table |-> cfg, bad |-> bad, alt |-> alt, skip |-> skip, reuse |-> reuse, pre |-> pre, tail |-> tail]
        /\ out' = Model(cfg')
 
-Next == PickTable \/ PickRest
+(* one codec value used for two or three calls: first input = the table picked, then small ones / the same again *)
+SmallTables == { t \in Tables : Len(t) <= 1 }
+PickReuse ==
+  /\ phase = "rest" /\ phase' = "reused"
+  /\ \E dir \in {"consume", "produce"}, skip \in 0..(MaxRecs + 2), bad1 \in BOOLEAN, bad2 \in BOOLEAN, n \in {2, 3} :
+     \E kind \in (IF dir = "consume" THEN DstSupported ELSE SrcSupported), t2 \in SmallTables \cup {cfg} :
+       /\ (dir = "produce" /\ kind \in {"records", "precords"}) => (~bad1 /\ ~bad2)
+       /\ LET calls == IF n = 2 THEN <<[table |-> cfg, bad |-> bad1], [table |-> t2, bad |-> bad2]>>
+                       ELSE <<[table |-> cfg, bad |-> bad1], [table |-> t2, bad |-> bad2], [table |-> cfg, bad |-> FALSE]>>
+          IN cfg' = [dir |-> dir, kind |-> kind, table |-> <<>>, bad |-> FALSE, alt |-> [table |-> <<>>, bad |-> FALSE],
+                     skip |-> skip, reuse |-> FALSE, pre |-> 0, tail |-> FALSE, calls |-> calls]
+       /\ out' = ReuseModel(cfg')
+
+Next == PickTable \/ PickRest \/ PickReuse
 Spec == Init /\ [][Next]_vars
 
-PropertyHolds == phase = "done" => Allowed(cfg, out)
+PropertyHolds == /\ phase = "done" => Allowed(cfg, out)
+                 /\ phase = "reused" => ReuseAllowed(cfg, out)
 
 \* non-vacuity witnesses (each checked to be violated during development)
 NeverPartial == ~(phase = "done" /\ out.err # "none" /\ out.delivered # <<>>)
